@@ -113,6 +113,24 @@ def programs(ctx):
             for c in CMPS:
                 p.cmp(c, 1, 2)
     progs.append(p.d())
+    # a quantity compared with ITSELF (the same object), and quantities that share one amount object across units
+    for t in ('A', 'B', 'A2', 'D'):
+        p = Prog('c04self-' + t)
+        us = by_type[t]
+        for j, u in enumerate(us):
+            qu = units[u]['quantum']
+            for a in (F(0), F(3, 2) if not qu else qu * 12, F(-7, 1) if not qu else -qu * 8):
+                p.make(1, t, a, u, 'dec' if j % 2 else 'frac')
+                for c in ('lt', 'le', 'gt', 'ge', 'eq', 'ne'):
+                    p.cmp(c, 1, 1)
+                if not qu:
+                    for v in us:
+                        if v != u and not units[v]['quantum']:
+                            p.relabel(1, v, 2, t)
+                            for c in ('eq', 'ne', 'lt', 'ge'):
+                                p.cmp(c, 1, 2)
+                                p.cmp(c, 2, 1)
+        progs.append(p.d())
     return progs
 
 
